@@ -333,7 +333,58 @@ func (c *Ctx) toBexpr(info *types.Info, e ast.Expr, o *canonOpts) *bexpr {
 			return c.cmpBexpr(info, x.X, x.Op, x.Y, o)
 		}
 	}
+	if call, ok := e.(*ast.CallExpr); ok {
+		if b := c.inlinePredicate(info, call, o, 2); b != nil {
+			return b
+		}
+	}
 	return bAtom(c.canon(info, e, o))
+}
+
+// inlinePredicate: a call of an unexported function or method of the repository whose body is a
+// single `return <boolean expression>` stands for that expression with the arguments in place of
+// the parameters (a guard extracted into a named predicate stays the same guard).
+func (c *Ctx) inlinePredicate(info *types.Info, call *ast.CallExpr, o *canonOpts, depth int) *bexpr {
+	g := calleeOf(info, call)
+	if g == nil || depth == 0 || g.Exported() || !inRepo(g) {
+		return nil
+	}
+	c.indexDecls()
+	fd, pk := c.declOf[g], c.declPkg[g]
+	if fd == nil || fd.Body == nil || len(fd.Body.List) != 1 {
+		return nil
+	}
+	rs, ok := fd.Body.List[0].(*ast.ReturnStmt)
+	if !ok || len(rs.Results) != 1 {
+		return nil
+	}
+	ginfo := pk.TypesInfo
+	if t := ginfo.TypeOf(rs.Results[0]); t == nil {
+		return nil
+	} else if b, ok := t.Underlying().(*types.Basic); !ok || b.Info()&types.IsBoolean == 0 {
+		return nil
+	}
+	switch unparen(rs.Results[0]).(type) {
+	case *ast.BinaryExpr, *ast.UnaryExpr, *ast.CallExpr:
+	default:
+		return nil
+	}
+	o2 := &canonOpts{subst: map[types.Object]string{}, merged: true}
+	sig := g.Type().(*types.Signature)
+	if sig.Variadic() || sig.Params().Len() != len(call.Args) {
+		return nil
+	}
+	for i := 0; i < sig.Params().Len(); i++ {
+		o2.subst[sig.Params().At(i)] = c.canon(info, call.Args[i], o)
+	}
+	if sig.Recv() != nil {
+		sel, ok := unparen(call.Fun).(*ast.SelectorExpr)
+		if !ok || fd.Recv == nil || len(fd.Recv.List) != 1 || len(fd.Recv.List[0].Names) != 1 {
+			return nil
+		}
+		o2.subst[ginfo.Defs[fd.Recv.List[0].Names[0]]] = c.canon(info, sel.X, o)
+	}
+	return c.toBexpr(ginfo, rs.Results[0], o2)
 }
 
 // cmpBexpr normalises integer comparisons with a constant so that `x > 1` and `x >= 2` meet.
